@@ -10,6 +10,8 @@ import Driver.SpscT
 import Driver.OverflowT
 import Driver.SeqLockT
 import Driver.ConnT
+import Driver.UisT
+import Driver.RuisT
 open Driver
 
 partial def loop (c : Comp) (hin hout : IO.FS.Stream) (s : c.σ) (buf : String) (n : Nat) : IO Unit := do
@@ -41,7 +43,9 @@ def components : List (String × Comp) := [
   ("spsc", SpscT.comp),
   ("overflow", OverflowT.comp),
   ("seqlock", SeqLockT.comp),
-  ("conn", ConnT.comp)
+  ("conn", ConnT.comp),
+  ("uis", UisT.comp),
+  ("ruis", RuisT.comp)
 ]
 
 def main (args : List String) : IO UInt32 := do
